@@ -87,6 +87,7 @@ func c25alphabet() []string {
 		gw.EvC("PUBACK(rejected)", gw.Puback(1, m, 2)),
 		gw.EvC("WILLTOPIC(empty)", gw.WillTopic("", 0, false)),
 		gw.EvC("garbage", []byte{0x03, 0x0c, 0x00}),
+		gw.EvC("empty datagram", []byte{}),
 	)
 	b := func(label string, raw []byte) { a = append(a, gw.EvB("broker "+label, raw)) }
 	b("CONNECT", refmqtt.EncConnect("x", 10))
